@@ -63,13 +63,23 @@ def rule_U1(F, R):
         pushes = [e for e in p.events if any(n.endswith("Vec::<T, A>::push") for n in e["names"])]
         desc = show_path(p, interesting=lambda e: any(n.endswith("::push") for n in e["names"]))
         w = where(b, p.blocks[-1])
+        # the returned list, whether written as vec![..] or as Vec::new() followed by pushes
+        items = None
+        base = p.ret
+        while base and base[0] == "M":
+            base = base[2]
+        if p.end[0] == "return" and base:
+            if base[0] == "T":
+                items = list(base[1]) + [e["args"][-1] for e in pushes]
+            elif base[0] == "C" and re.search(r"Vec::<T>::(new|with_capacity)$", base[2]):
+                items = [e["args"][-1] for e in pushes]
         if kind == "Create" and p.end[0] == "return":
             seen.add(kind)
-            ok = p.ret == ("T", (("A", "server::op::SyncOp", "Delete", (("uuid", ("F", ("P", pname), "Create", "uuid")),)),)) and not pushes
+            ok = items == [("A", "server::op::SyncOp", "Delete", (("uuid", ("F", ("P", pname), "Create", "uuid")),))]
             _rep(R, ok, "U1", b, "Create", "Create{u} must reverse to exactly [Delete{u}]", desc, w)
         elif kind == "UndoPoint" and p.end[0] == "return":
             seen.add(kind)
-            ok = (p.ret[0] == "C" and p.ret[2].endswith("Vec::<T>::new") and not pushes) or p.ret == ("T", ())
+            ok = items == []
             _rep(R, ok, "U1", b, "UndoPoint", "UndoPoint must reverse to []", desc, w)
         elif kind == "Update" and p.end[0] == "return":
             seen.add(kind)
@@ -78,9 +88,9 @@ def rule_U1(F, R):
                 ("property", ("F", ("P", pname), "Update", "property")),
                 ("value", ("F", ("P", pname), "Update", "old_value")),
                 ("timestamp", ("F", ("P", pname), "Update", "timestamp")))),))
-            ok = not pushes and p.ret[0] == "T" and len(p.ret[1]) == 1 and p.ret[1][0][0] == "A" and p.ret[1][0][2] == "Update"
+            ok = items is not None and len(items) == 1 and items[0][0] == "A" and items[0][2] == "Update"
             if ok:
-                f = dict(p.ret[1][0][3])
+                f = dict(items[0][3])
                 ok = f.get("uuid") == ("F", ("P", pname), "Update", "uuid") and f.get("property") == ("F", ("P", pname), "Update", "property") \
                     and f.get("value") == ("F", ("P", pname), "Update", "old_value")
             _rep(R, ok, "U1", b, "Update", "Update must reverse to [Update{same uuid, same property, value = old_value}]", desc, w)
